@@ -141,6 +141,11 @@ func VerifC20(args []string) {
 
 	w.useAvail = true
 	if has('t') {
+		// the engine first: the three-valued reference assumes that no sub-expression fails (C05's
+		// quantifier), and an assumption must not hide a generated expression that does fail
+		got, gerr := e.TryEval(&Ctx{VariableFetcher: &vfFetcher{w: w}})
+		vfAssert(gerr == nil, "TryEval of the generated expression fails: "+g.Expr)
+		vfAssert(got == g.Res, "reported result differs from TryEval: "+g.Expr)
 		want, definite := w.refKleene(tree)
 		if definite {
 			vfReach("definite")
@@ -149,9 +154,6 @@ func VerifC20(args []string) {
 			vfReach("dne")
 			vfAssert(g.Res == DNE, "three-valued evaluation is undecided but the reported result is not DNE: "+g.Expr)
 		}
-		got, gerr := e.TryEval(&Ctx{VariableFetcher: &vfFetcher{w: w}})
-		vfAssert(gerr == nil, "TryEval of the generated expression fails: "+g.Expr)
-		vfAssert(got == g.Res, "reported result differs from TryEval: "+g.Expr)
 		return
 	}
 	want, werr := w.refEval(tree)
